@@ -103,10 +103,10 @@ def new_stream(run, n, bit_ok):
     import ctorgen
     rng = run.rng
     res = []
-    for k in range(n):
+    for k in range(3 * n):      # `shoot new` on an import-free package takes ~60 ms: three times the share of the other streams
         name = "n%03d" % k
-        pkg = ctorgen.gen_struct_pkg(rng, name, getset_dirs=rng.random() < 0.5)
-        flags = [f for f in NEW_FLAGS if rng.random() < 0.42]
+        pkg = ctorgen.gen_struct_pkg(rng, name, getset_dirs=rng.random() < 0.5, p_generic=0.3)
+        flags = [f for f in NEW_FLAGS if rng.random() < (0.42 if k % 2 else 0.15)]
         if "-short" in flags and "-opt" not in flags:
             flags.append("-opt")
         if sum(f.startswith("-tagcase") for f in flags) > 1:
@@ -139,8 +139,9 @@ def new_stream(run, n, bit_ok):
         cpkg = ctorgen.coq_pkg(pkg)
         data = [("new", "GNewSpec %s %s 8 %s" % (cpkg, fl, cs(T))) for T in types]
         feats = {"cmd-new", "new-mode-" + mode} | {"new" + f.split("=")[0] for f in flags}
-        res.append(Pkg(name, files, [(["new"] + flags + sel, data)], feats,
-                       extra={"helper/helper.go": ctorgen.HELPER_GO}))
+        pk = Pkg(name, files, [(["new"] + flags + sel, data)], feats, extra={"helper/helper.go": ctorgen.HELPER_GO})
+        pk.run_types = [types]
+        res.append(pk)
     return res
 
 
@@ -282,9 +283,12 @@ COMPONENT = {0: "-", 1: "declared names of the written files differ from the mod
              3: "model's name-level well-formedness verdict differs from the go build verdict"}
 
 
-def exercise(run, shoot, declsig, pkgs, bit_fixed, modname="c01mod"):
-    """returns (cases, rendered, obs)"""
-    mod = l2.make_module(run, modname)
+def exercise(run, shoot, declsig, pkgs, bit_fixed, modname="c01mod", root=None):
+    """returns (cases, rendered, module dir)"""
+    mod = l2.make_module(run, modname if root is None else root + "/" + modname)
+    if root is not None:
+        gm = (mod / "go.mod").read_text()
+        (mod / "go.mod").write_text(gm.replace("module %s/%s" % (root, modname), "module " + modname))
     # every source first (shared sibling packages are read by goimports of concurrent runs), then the runs
     for pkg in pkgs:
         l2.write_files(mod / pkg.dir, pkg.files)
@@ -297,15 +301,16 @@ def exercise(run, shoot, declsig, pkgs, bit_fixed, modname="c01mod"):
     cases, rendered = [], []
     for pkg, obs in zip(pkgs, allobs):
         d = mod / pkg.dir
-        imp = "%s/%s" % (mod.name, pkg.dir)
+        imp = "%s/%s" % (modname, pkg.dir)
         berr = [e for k, e in errs.items() if k == imp or k == "?"]
         build_ok = ok or imp not in errs
         if "?" in errs:
             build_ok = False
-        for o, (args, data) in zip(obs, pkg.runs):
+        for ri, (o, (args, data)) in enumerate(zip(obs, pkg.runs)):
             gofmt_ok = all(l2.gofmt_clean(d / f)[0] for f in o["written"])
-            case = {"pkg": pkg, "obs": o, "build_ok": build_ok, "gofmt_ok": gofmt_ok,
-                    "build_errors": [l for e in berr for l in e][:12]}
+            case = {"pkg": pkg, "obs": o, "build_ok": build_ok, "gofmt_ok": gofmt_ok, "run_index": ri,
+                    "types": (pkg.run_types[ri] if getattr(pkg, "run_types", None) else None),
+                    "build_errors": [l for e in berr for l in e][:40]}
             cases.append(case)
             rendered.append((coq_case(pkg, o, sigs, d, build_ok, gofmt_ok, bit_fixed, data), list(data)))
     return cases, rendered, mod
@@ -372,6 +377,35 @@ def replay_witnesses(run, shoot):
     return out
 
 
+def failure_signature(case):
+    """how a run failed, without positions: exit class + the compiler's messages for the package"""
+    o = case["obs"]
+    if o["timed_out"] or o["panicked"]:
+        return ("abnormal",)
+    if o["rc"] != 0:
+        return ("exit", re.sub(r"[\w./-]*\.go:\d+:\d+", "", o["err"].strip().splitlines()[0] if o["err"].strip() else "")[:120])
+    msgs = sorted({re.sub(r"^\S+\.go:\d+:\d+: ", "", l.strip()) for l in case["build_errors"] if ".go:" in l})
+    return ("build", case["build_ok"], case["gofmt_ok"], tuple(msgs))
+
+
+def errors_in_guarded_types(case, mask):
+    """separate-file runs: does some compile error sit in the generated file of a type that is inside its guard?
+    (the i-th data entry of the run is the i-th selected type; its file is <src>.shoot<cmd>.<lower T>.go)"""
+    types = case.get("types") or []
+    written = case["obs"]["written"]
+    if len(written) < 2 or len(types) != len(case["pkg"].runs[case["run_index"]][1]):
+        return False
+    cmd = case["obs"]["args"][0]
+    bad_files = {l.split(":")[0].split("/")[-1] for l in case["build_errors"] if ".go:" in l}
+    for i, T in enumerate(types):
+        if not (mask >> i) & 1:
+            continue
+        suffix = ".shoot%s.%s%s.go" % (cmd, "" if T[:1].isupper() else "_", T.lower())
+        if any(f.endswith(suffix) for f in bad_files):
+            return True
+    return False
+
+
 def main(run):
     proof_ok = run.prove("Properties/C01.v", ["Corr/GoWfCorr.v"])
     shoot = run.build_shoot()
@@ -387,19 +421,49 @@ def main(run):
     run.log("packages: %d" % len(pkgs))
     cases, rendered, mod = exercise(run, shoot, declsig, pkgs, bit_fixed)
     run.log("runs: %d" % len(cases))
-    mism_all = evaluate(run, rendered)
+    raw = evaluate(run, rendered)
+    # Coq encodes a verdict as kind + 10 * component; for kind 8 / component 1 the component also carries the
+    # mask of the run's types that are inside their generator guard: component = 1 + 10 * mask
+    masks = {idx: (v // 10) // 10 for idx, v in raw if v % 10 == 8}
+    mism_all = [(idx, (v % 10) * 10 + (v // 10) % 10) for idx, v in raw]
     outside = [idx for idx, v in mism_all if v // 10 == 9]
     # verdict 8: the property fails on an input of an excused class; excused ONLY while an open finding that owns
     # such a class reproduces on this tree for that subcommand (81) / while a name-collision finding reproduces (82)
     open_buggy = {f["id"] for f in run.findings() if f.get("status") != "fixed" and outcome.get(f["id"]) == "buggy"}
     name_classes = {"K_opt_short_collision", "K_ctor_method_name_collision", "K_ctor_camel_collision", "K_rest_unexported_iface"}
     by_cmd = {"new": ("K_ctor_", "K_opt_", "K_json_", "K_getset_"), "enum": ("K_enum_", "K_bit_"), "rest": ("K_rest_",), "map": ("K_map_",)}
+    # precise excuse: the same runs are repeated with the shoot binary of the recorded baseline commit; a failing
+    # case of an excused class stays excused only if the baseline fails on it with the same compiler messages
+    cand = [idx for idx, v in mism_all if v // 10 == 8]
+    base_sig, baseline = {}, None
+    if cand:
+        baseline = lib.build_baseline_shoot(run)
+    if cand and baseline:
+        bpk = []
+        seen = set()
+        for idx in cand:
+            pk = cases[idx]["pkg"]
+            if id(pk) not in seen:
+                seen.add(id(pk))
+                bpk.append(pk)
+        bcases, _r, _m = exercise(run, baseline, declsig, bpk, bit_fixed, modname="c01mod", root="base")
+        bykey = {(c["pkg"].dir, c["run_index"]): c for c in bcases}
+        for idx in cand:
+            b = bykey.get((cases[idx]["pkg"].dir, cases[idx]["run_index"]))
+            base_sig[idx] = failure_signature(b) if b else None
     excused, unexcused = [], []
     for idx, v in mism_all:
         if v // 10 != 8:
             continue
+        if baseline and base_sig.get(idx) != failure_signature(cases[idx]):
+            # the baseline behaves differently on this very input (it compiles there, or fails otherwise): a regression
+            cases[idx]["baseline_failure"] = base_sig.get(idx)
+            unexcused.append((idx, v, []))
+            continue
         cmd = cases[idx]["obs"]["args"][0]
         owners = (open_buggy & name_classes) if v == 82 else {k for k in open_buggy if k.startswith(by_cmd.get(cmd, ()))}
+        if v == 81 and owners and errors_in_guarded_types(cases[idx], masks.get(idx, 0)):
+            owners = set()      # a compile error in the file of a type that IS inside its guard: nothing excuses it
         (excused if owners else unexcused).append((idx, v, sorted(owners)))
     mism = [(idx, v) for idx, v in mism_all if v // 10 in (1, 2)] + [(idx, 20 + v % 10) for idx, v, _ in unexcused]
     for idx, v in mism[:5]:
@@ -412,6 +476,7 @@ def main(run):
                        "package": c["pkg"].name, "sources": c["pkg"].files, "extra": c["pkg"].extra,
                        "command": "shoot " + " ".join(c["obs"]["args"]), "observed": c["obs"],
                        "go_build_ok": c["build_ok"], "gofmt_clean": c["gofmt_ok"], "build_errors": c["build_errors"],
+                       "baseline_failure_on_the_same_input": c.get("baseline_failure", "n/a"),
                        "dir": c["pkg"].dir, "coq_case": rendered[idx][0], "coq_data": [list(x) for x in rendered[idx][1]]},
                       no_input=(verdict != 2))
     if not proof_ok and not mism:
@@ -451,6 +516,7 @@ def main(run):
             {"command": "shoot " + " ".join(cases[i]["obs"]["args"]), "package": cases[i]["pkg"].name, "open_findings_of_the_class": o}
             for i, v, o in excused if v == 82][:12],
         "excused_cases": len(excused),
+        "excuses_checked_against_baseline": (open(lib.VERIF / "baseline_commit").read().split()[0] if baseline else "no baseline available: excused by class only"),
         "findings_measured": outcome,
         "samples": [{"package": c["pkg"].name, "command": "shoot " + " ".join(c["obs"]["args"]),
                      "written": c["obs"]["written"], "go_build_ok": c["build_ok"], "gofmt_clean": c["gofmt_ok"],
